@@ -76,3 +76,18 @@ pub fn vx_zip_vecs<A, B>(a: Vec<A>, b: std::vec::IntoIter<B>) -> (r: Vec<(A, B)>
             forall|i: int| 0 <= i < r@.len() ==> (#[trigger] r@[i]).0 == a@[i] && r@[i].1 == b.remaining()[i],
 { a.into_iter().zip(b).collect() }
 } // verus!
+// ---- NpmSpecifierResolver::fill_graph
+pub struct HashIntoIter<K, V> { _k: core::marker::PhantomData<K>, _v: core::marker::PhantomData<V> }
+impl<K, V> Iterator for HashIntoIter<K, V> { type Item = (K, V); fn next(&mut self) -> Option<(K, V)> { unimplemented!() } }
+verus! {
+#[verifier::external_type_specification] #[verifier::external_body] #[verifier::reject_recursive_types(K)] #[verifier::reject_recursive_types(V)]
+pub struct ExNpHashIntoIter<K, V>(HashIntoIter<K, V>);
+/// `for (k, v) in hash_map` by value (R6 + R7 wrapper): every entry exactly once, in SOME order
+#[verifier::external_body]
+pub fn vx_hash_into_iter<K, V>(m: std::collections::HashMap<K, V>) -> (r: HashIntoIter<K, V>)
+    ensures
+        r.obeys_prophetic_iter_laws(),
+        forall|i: int| 0 <= i < r.remaining().len() ==> m@.contains_key((#[trigger] r.remaining()[i]).0) && m@[r.remaining()[i].0] == r.remaining()[i].1,
+        forall|k: K| #[trigger] m@.contains_key(k) ==> exists|i: int| 0 <= i < r.remaining().len() && (#[trigger] r.remaining()[i]).0 == k,
+{ unimplemented!() }
+} // verus!
